@@ -1,9 +1,19 @@
-(* C06, step level: the predicates of Conn/C06_Pred.v as THEOREMS about every step of the model
-   (every state satisfying a proved invariant, every event) and about every trace from vsock_new.
-     c06_joint_ok        along every trace from vsock_new (valid configuration)     c06_joint_ok_trace
-     c06_cap_ok          under CAPc (an invariant), every step and trace            c06_cap_ok_step / _trace
-     c06_backoff_ok      under ti /\ LB 0 (invariants), every step and trace        c06_backoff_ok_step / _trace
-     c06_emitted_live_ok FALSE as stated (restart after EMSGSIZE); every EMSGSIZE-free poll c06_emitted_live_ok_poll *)
+(* C06, step level: the predicates of Conn/C06_Pred.v (and c06_no_resend_acked of Conn/C0506_Pred2.v) as
+   THEOREMS about every step of the model (every state satisfying a proved invariant, every event) and about
+   every trace from vsock_new.  Machinery: Conn/C06_StepLemmas.v (PollHoare, SendRule, PimRule, fpr, CAP, OUT),
+   Conn/C06_StepLemmas2.v (RTO modes, back-off, DM), Conn/C06_StepLemmas3.v (fast retransmit).
+     c06_joint_ok         every trace (valid configuration)                           c06_joint_ok_trace
+     c06_cap_ok           under CAPc (an invariant), every step, every result         c06_cap_ok_step / _trace
+     c06_backoff_ok       under ti /\ LB 0 (invariants), every step, restarts incl.  c06_backoff_ok_step / _trace
+     c06_emitted_live_ok  FALSE as stated (emitted_live_restart_refuted: restart after EMSGSIZE);
+                          every poll the transport cannot answer with EMSGSIZE        c06_emitted_live_ok_poll,
+                          guarded trace predicate c06_emitted_live_ok_g               c06_emitted_live_ok_g_trace
+     c06_no_resend_acked  EMSGSIZE-free polls, tables within the wrap tolerance       c06_no_resend_acked_t_poll,
+                          (c06_no_resend_acked_t / _g, Conn/C06_Pred2.v)              c06_no_resend_acked_g_trace
+     c06_fast_retx_ok     EMSGSIZE-free polls, guard of c06_fast_retx_ok_t            c06_fast_retx_ok_t_poll,
+                                                                                      c06_fast_retx_ok_g_trace
+   Non-vacuity: backoff_cap_nonvacuous, fast_retx_nonvacuous.
+   NOT done here: c06_rp_exit_ok, c06_stable_plen_ok (trace level). *)
 From Utp Require Conn.VSock_Inv.
 From Utp Require Import Base.Prelude Wire.SeqNr Wire.SeqNr_Proofs Wire.Header Rtt.Rtte Rtt.Rtte_Proofs
   Mtu.SegSizes Rx.Rx Tx.Ring Tx.Ring_Proofs Tx.Segments Tx.Segments_Proofs Tx.Segments_ProofsOut
